@@ -39,7 +39,7 @@ def load_known_findings():
 def _known_py(expr, rec):
     """optional python predicate of a known-findings entry over the record (rec) - for input classes a regex cannot express"""
     try:
-        return bool(eval(expr, {'re': re, 'rec': rec, '__builtins__': {'int': int, 'float': float, 'len': len, 'abs': abs, 'min': min, 'max': max}}))
+        return bool(eval(expr, {'re': re, 'rec': rec, '__builtins__': {'int': int, 'float': float, 'len': len, 'abs': abs, 'min': min, 'max': max, 'sum': sum, 'enumerate': enumerate, 'reversed': reversed, 'list': list}}))
     except Exception:
         return False
 
@@ -208,6 +208,8 @@ class Check:
             if m.get('label_regex') and not re.search(m['label_regex'], record.get('label', '')):
                 continue
             if m.get('job_regex') and not re.search(m['job_regex'], record.get('job', '')):
+                continue
+            if m.get('observed_regex') and not re.search(m['observed_regex'], record.get('observed', '')):
                 continue
             if m.get('py') and not _known_py(m['py'], record):
                 continue
